@@ -55,7 +55,8 @@ func runC11(r *Run) {
 	}, mkAuth)
 	denyIdx = map[int]bool{}
 	nClients := 2 + r.W.Pick(5)
-	names := []string{"Alice", "alice", "ALICE", "Bob", "Alice", "Bob"}
+	simultaneous := r.W.Pick(2) == 0 // all logins start in the same instant: the pre-check/registration window overlaps
+	names := []string{"Alice", "alice", "ALICE", "Bob", "Alice", "Bob", "BOB", "bob"}
 	prot := pickProtocol(r)
 
 	// scripted LoginEvent subscriber: deny chosen connections (identified by remote address)
@@ -80,6 +81,9 @@ func runC11(r *Run) {
 		mode := r.W.Pick(6) // 0,1,2 stay; 3 denied; 4 drop mid-login; 5 short stay
 		stay := time.Duration(1+r.W.Pick(400)) * time.Millisecond
 		delay := time.Duration(r.W.Pick(30)) * time.Millisecond
+		if simultaneous {
+			delay = 0
+		}
 		idx := i
 		if mode == 3 {
 			denyIdx[idx] = true
